@@ -243,6 +243,9 @@ def ctl_get(L: Layout, f: Field, prop) -> Harness:
     else:
         rr = [(lo - 1, n)] + list(f.ranges[1:]) if lo > 0 else [(lo, n)]
     h = h_get(L, f, prop, name=f"ctl_get_{f.name}", spec_ranges=rr)
+    if rr == list(f.ranges):
+        # nowhere to shift to (full-width field): flip the lowest bit of the reference instead
+        h.body = h.body.replace("let want: u128 = spec::get(", "let want: u128 = 1u128 ^ spec::get(", 1)
     h.expect, h.family = "control", "control"
     return h
 
